@@ -41,11 +41,12 @@ use std::sync::{Arc, Condvar, Mutex};
 use std::thread::{self, ThreadId};
 use std::time::{Duration, Instant};
 
-const RULE: &str = "one case = one input (window width 1-8 / slide 1-4 / report strategy, window BGP of 1-3 patterns, 0-3 rules, in-order stream of 8-60 items over a small triple pool in which rule conclusions also arrive as raw items, optional stop()) driven through RSTREAM, ISTREAM and DSTREAM engines in single-thread mode and in multi-thread mode under perturbed schedules; phase overlap_exhaustive enumerates ALL streams of a fixed length over a 3-triple pool and gaps {0,1,2} for each (rule set, width, slide, report strategy) block; phase scripted replays hand-written scenarios (DESIGN witness, the repository's ISTREAM/DSTREAM/reasoning tests). Non-trivial = an input whose probe reported at least two firings, with a triple present in two consecutive firings and a triple evicted between two firings, and for which the oracle emits at least one row; distinct by hash of the input.";
+const RULE: &str = "one case = one input (window width 1-8 / slide 1-4 or none / report strategy, window BGP of 1-3 patterns, 0-3 rules given as N3 or as SPARQL RULE strings, in-order stream of 8-60 items over a small triple pool in which rule conclusions also arrive as raw items, fed through add or add_to_stream (with items sent to another stream in between), parse_data interleaved with feeding or done before, optional stop(), Volcano / Standard execution mode) driven through RSTREAM, ISTREAM and DSTREAM engines in single-thread mode and in multi-thread mode under perturbed schedules (7 / 170 schedules per operator: free, seeded sleeps and yields, lockstep gate, backlog gate, hold-all gate); phases overlap_exhaustive* enumerate ALL streams of a fixed length over a 3-triple pool and gaps {0,1,2} for each (rule set, width, slide, report strategy) block; phase scripted replays hand-written scenarios (DESIGN witness, the repository's ISTREAM/DSTREAM/reasoning tests). Non-trivial = an input whose probe reported at least two firings, with a triple present in two consecutive firings and a triple evicted between two firings, and for which the oracle emits at least one row; distinct by hash of the input.";
 
 const RDF_TYPE: &str = "http://www.w3.org/1999/02/22-rdf-syntax-ns#type";
 const NS: &str = "http://k/";
 const WATCHDOG: Duration = Duration::from_secs(60);
+const GATE_PATIENCE: Duration = Duration::from_secs(3);
 
 // ---------------------------------------------------------------------------------------
 // input description
@@ -519,6 +520,7 @@ struct State {
     feeding_done: bool,
     consumer_dropped: bool,
     max_backlog: u64,
+    gates_abandoned: u64,
     threads: Vec<ThreadId>,
     rng_main: Rng,
     rng_worker: Rng,
@@ -545,6 +547,7 @@ impl Shared {
                 feeding_done: false,
                 consumer_dropped: false,
                 max_backlog: 0,
+                gates_abandoned: 0,
                 threads: vec![thread::current().id()],
                 rng_main: Rng::derive(seed, "sched-main", 0),
                 rng_worker: Rng::derive(seed, "sched-worker", 0),
@@ -577,6 +580,24 @@ impl Shared {
                 self.timed_out.store(true, Ordering::SeqCst);
                 drop(g);
                 self.cv.notify_all();
+                return false;
+            }
+            g = self.cv.wait_timeout(g, deadline - now).unwrap().0;
+        }
+    }
+    /// schedule gate: like wait_until but gives up after GATE_PATIENCE without any verdict
+    fn gate(&self, pred: impl Fn(&State) -> bool) -> bool {
+        let deadline = Instant::now() + GATE_PATIENCE;
+        let mut g = self.st.lock().unwrap();
+        if g.gates_abandoned > 0 {
+            return true; // one abandoned gate switches the gates of this run off
+        }
+        loop {
+            if pred(&g) {
+                return true;
+            }
+            let now = Instant::now();
+            if now >= deadline || self.timed_out.load(Ordering::SeqCst) {
                 return false;
             }
             g = self.cv.wait_timeout(g, deadline - now).unwrap().0;
@@ -648,17 +669,17 @@ impl Shared {
         if do_yield {
             thread::yield_now();
         }
-        match gate {
-            Some(1) => {
-                self.wait_until(|s| s.after >= s.sent);
-            }
-            Some(2) => {
-                self.wait_until(|s| s.feeding_done || s.main_adds >= s.worker_target.unwrap_or(0));
-            }
-            Some(3) => {
-                self.wait_until(|s| s.feeding_done);
-            }
-            _ => {}
+        // gates only shape the schedule: one that is not released (e.g. a worker that drops
+        // contents never reaches "everything processed") is abandoned and counted, the verdict
+        // comes from the end-of-run quiescence and the comparison
+        let released = match gate {
+            Some(1) => self.gate(|s| s.after >= s.sent),
+            Some(2) => self.gate(|s| s.feeding_done || s.main_adds >= s.worker_target.unwrap_or(0)),
+            Some(3) => self.gate(|s| s.feeding_done),
+            _ => true,
+        };
+        if !released {
+            self.update(|s| s.gates_abandoned += 1);
         }
     }
 }
@@ -696,6 +717,7 @@ struct Obs {
     interleaving: u64,
     hook_counts: [u64; 4],
     max_backlog: u64,
+    gates_abandoned: u64,
     worker_threads: usize,
 }
 
@@ -716,7 +738,53 @@ fn nt_line(t: &LT) -> String {
     format!("{} {} {} .", term_text(&t.0), term_text(&t.1), term_text(&t.2))
 }
 
+/// RSPBuilder prints its plans with println!: when a case is replayed in the foreground (no
+/// worker process whose stdout is discarded) fd 1 is pointed at /dev/null while the engine runs.
+static MUTE_ENGINE_STDOUT: AtomicBool = AtomicBool::new(false);
+extern "C" {
+    fn dup(fd: i32) -> i32;
+    fn dup2(from: i32, to: i32) -> i32;
+    fn close(fd: i32) -> i32;
+    fn open(path: *const u8, flags: i32, ...) -> i32;
+}
+struct StdoutMute(i32);
+impl StdoutMute {
+    fn new() -> StdoutMute {
+        if !MUTE_ENGINE_STDOUT.load(Ordering::SeqCst) {
+            return StdoutMute(-1);
+        }
+        use std::io::Write;
+        let _ = std::io::stdout().flush();
+        // SAFETY: plain POSIX descriptor calls on descriptors owned by this function
+        unsafe {
+            let saved = dup(1);
+            let null = open(b"/dev/null\0".as_ptr(), 1 /* O_WRONLY */);
+            if saved >= 0 && null >= 0 {
+                dup2(null, 1);
+            }
+            if null >= 0 {
+                close(null);
+            }
+            StdoutMute(saved)
+        }
+    }
+}
+impl Drop for StdoutMute {
+    fn drop(&mut self) {
+        if self.0 >= 0 {
+            use std::io::Write;
+            let _ = std::io::stdout().flush();
+            // SAFETY: restores the descriptor saved in new()
+            unsafe {
+                dup2(self.0, 1);
+                close(self.0);
+            }
+        }
+    }
+}
+
 fn run_engine(input: &Input, op: Op, mode: Mode, sched: Sched, sched_seed: u64, firings: &[Firing]) -> Obs {
+    let _mute = StdoutMute::new();
     let sh = Shared::new(if mode == Mode::Single { Sched::Free } else { sched.clone() }, sched_seed);
     let hook_sh = sh.clone();
     verif_hooks::install(Arc::new(move |site| hook_sh.hook(site)));
@@ -797,6 +865,7 @@ fn run_engine(input: &Input, op: Op, mode: Mode, sched: Sched, sched_seed: u64, 
     let g = sh.st.lock().unwrap();
     obs.hook_counts = [g.sent, g.before, g.after, g.coordinator];
     obs.max_backlog = g.max_backlog;
+    obs.gates_abandoned = g.gates_abandoned;
     obs.worker_threads = g.threads.len() - 1;
     let mut h = String::new();
     for e in &g.log {
@@ -988,11 +1057,13 @@ fn diff_detail(op: Op, obs: &Obs, ex: &Expect) -> (Value, &'static str) {
 }
 
 /// Name the cause(s) of the single-thread deviations of one input: (signature, detail) list,
-/// empty when every operator agrees with the reference.
-///  1. an alternative store model that predicts the WHOLE emitted sequence of ALL THREE operators;
-///  2. the RSTREAM run deviates: the relation of some firing is wrong (direction from the RSTREAM
-///     run, plus a restricted re-run without rules);
-///  3. the RSTREAM run agrees but ISTREAM / DSTREAM does not: the relation-to-stream stage.
+/// empty when every operator agrees with the reference. Two stages are judged separately:
+///  A. window dataset — the RSTREAM run shows the relation the engine computed at every firing;
+///     if it deviates from the reference, the cause is named by the alternative store model(s)
+///     that predict the WHOLE observed relation sequence (single-defect models first), else
+///     "unexplained" with the direction and a restricted re-run without rules;
+///  B. relation-to-stream — an ISTREAM / DSTREAM run that deviates from the reference AND from
+///     the operator applied to the relations observed in the RSTREAM run of the same input.
 fn attribute_input(input: &Input, sr: &SingleRuns) -> Vec<(Value, Value)> {
     let failing: Vec<Op> = OPS.iter().copied().filter(|op| !sr.runs[op].0).collect();
     if failing.is_empty() {
@@ -1008,45 +1079,64 @@ fn attribute_input(input: &Input, sr: &SingleRuns) -> Vec<(Value, Value)> {
             return vec![];
         }
     }
-    let mut or = Oracle::new(input);
-    for m in &ALT_MODELS {
-        let rel = simulate(m, &mut or, &sr.ex.contents);
-        if OPS.iter().all(|op| sr.runs[op].1.structure.is_empty() && r2s(*op, &rel) == sr.runs[op].1.firings) {
-            let (mut d, _) = diff_detail(failing[0], &sr.runs[&failing[0]].1, &sr.ex);
-            d["explained_by_store_model"] = json!(m.name);
-            d["operators_deviating"] = json!(failing.iter().map(|o| o.name()).collect::<Vec<_>>());
-            return vec![(json!({"kind": "firing_output_differs_from_window_semantics", "stage": "window_dataset", "cause": m.name}), d)];
-        }
-    }
-    if !sr.runs[&Op::R].0 {
-        let obs = &sr.runs[&Op::R].1;
-        let (mut d, dir) = diff_detail(Op::R, obs, &sr.ex);
-        if dir == "none" {
-            return vec![(json!({"kind": "consumer_called_outside_a_firing", "mode": "single_thread"}), d)];
-        }
-        let mut only_with_rules = Value::Null;
-        if !input.rules.is_empty() {
-            let mut plain = input.clone();
-            plain.rules.clear();
-            if let Ok(f) = probe(&plain) {
-                if let Ok(ex) = expect(&plain, &f) {
-                    let o = run_engine(&plain, Op::R, Mode::Single, Sched::Free, 0, &f);
-                    only_with_rules = json!(agrees(&o, &ex.emitted[&Op::R]));
-                }
-            }
-        }
-        d["agrees_when_rules_are_removed"] = only_with_rules.clone();
-        d["operators_deviating"] = json!(failing.iter().map(|o| o.name()).collect::<Vec<_>>());
-        return vec![(json!({"kind": "firing_output_differs_from_window_semantics", "stage": "window_dataset", "cause": "unexplained", "relation": dir, "only_with_rules": only_with_rules}), d)];
-    }
+    let names = json!(failing.iter().map(|o| o.name()).collect::<Vec<_>>());
     let mut out = vec![];
     for &op in &failing {
-        let (d, dir) = diff_detail(op, &sr.runs[&op].1, &sr.ex);
-        if dir == "none" {
+        if first_diff(&sr.ex.emitted[&op], &sr.runs[&op].1.firings).is_none() {
+            let (d, _) = diff_detail(op, &sr.runs[&op].1, &sr.ex);
             out.push((json!({"kind": "consumer_called_outside_a_firing", "mode": "single_thread"}), d));
-        } else {
-            out.push((json!({"kind": "stream_operator_output_wrong", "stage": "relation_to_stream", "operator": op.name(), "direction": dir}), d));
+            return out;
         }
+    }
+    // ---- stage A
+    let obs_r = &sr.runs[&Op::R].1;
+    if !sr.runs[&Op::R].0 {
+        let (mut d, dir) = diff_detail(Op::R, obs_r, &sr.ex);
+        d["operators_deviating"] = names.clone();
+        let mut or = Oracle::new(input);
+        let matching = |or: &mut Oracle, ms: &[&StoreModel]| -> Vec<&'static str> { ms.iter().filter(|m| simulate(m, or, &sr.ex.contents) == obs_r.firings).map(|m| m.name).collect() };
+        let mut causes = matching(&mut or, &[&ALT_MODELS[0], &ALT_MODELS[1], &ALT_MODELS[2]]);
+        if causes.is_empty() {
+            causes = matching(&mut or, &[&ALT_MODELS[3]]);
+        }
+        if !causes.is_empty() {
+            d["explained_by_store_model"] = json!(causes);
+            let cause = if causes.len() == 1 { json!(causes[0]) } else { json!(causes) };
+            out.push((json!({"kind": "firing_output_differs_from_window_semantics", "stage": "window_dataset", "cause": cause}), d));
+        } else {
+            let mut only_with_rules = Value::Null;
+            if !input.rules.is_empty() {
+                let mut plain = input.clone();
+                plain.rules.clear();
+                if let Ok(f) = probe(&plain) {
+                    if let Ok(ex) = expect(&plain, &f) {
+                        let o = run_engine(&plain, Op::R, Mode::Single, Sched::Free, 0, &f);
+                        only_with_rules = json!(agrees(&o, &ex.emitted[&Op::R]));
+                    }
+                }
+            }
+            d["agrees_when_rules_are_removed"] = only_with_rules.clone();
+            out.push((json!({"kind": "firing_output_differs_from_window_semantics", "stage": "window_dataset", "cause": "unexplained", "relation": dir, "only_with_rules": only_with_rules}), d));
+        }
+    }
+    // ---- stage B
+    for op in [Op::I, Op::D] {
+        if sr.runs[&op].0 {
+            continue;
+        }
+        let from_observed = r2s(op, &obs_r.firings);
+        if from_observed == sr.runs[&op].1.firings {
+            continue; // consistent with the relations the engine computed: stage A says it all
+        }
+        let (mut d, _) = diff_detail(op, &sr.runs[&op].1, &sr.ex);
+        let dir = match first_diff(&from_observed, &sr.runs[&op].1.firings) {
+            Some((i, m, e)) => {
+                d["relative_to_the_relations_observed_under_RSTREAM"] = json!({"first_differing_firing": i, "missing": short_rows(&m), "not_expected": short_rows(&e)});
+                direction(&m, &e)
+            }
+            None => "none",
+        };
+        out.push((json!({"kind": "stream_operator_output_wrong", "stage": "relation_to_stream", "operator": op.name(), "direction": dir}), d));
     }
     out
 }
@@ -1286,6 +1376,7 @@ fn check_input(ctx: &mut Ctx, input: &Input, plan: &Plan, sched_rng: &mut Rng, l
             ctx.count("hook_events.worker.after_process", obs.hook_counts[2]);
             ctx.count("hook_events.coordinator", obs.hook_counts[3]);
             ctx.max("max_contents_queued_when_worker_starts_one", obs.max_backlog);
+            ctx.count("schedule_gates_abandoned", obs.gates_abandoned);
             ctx.max("max_worker_threads_seen_in_a_run", obs.worker_threads as u64);
             ctx.count("firings_compared.multi_thread", n as u64);
             if inter.insert(obs.interleaving) {
@@ -1651,6 +1742,7 @@ fn random(ctx: &mut Ctx) {
 }
 
 fn run(ctx: &mut Ctx) {
+    MUTE_ENGINE_STDOUT.store(ctx.replaying() || std::env::var("KV_MUTE_ENGINE").is_ok(), Ordering::SeqCst);
     scripted(ctx);
     if ctx.thorough() {
         overlap_exhaustive(ctx, "overlap_exhaustive", 5, false, 0.45);
